@@ -38,7 +38,7 @@ PAYLOADS = ['$(>pwn1)', '`>pwn2`', '${HOME}', '$HOME', '~', '!!', 'f*', '?1', '[
 DESCRS = ['plain words', 'has "quotes" inside', 'cost is $5 or $HOME', 'back`tick` here', 'back\\slash', 'ends with \\',
           '$(>pwn3) payload', '`>pwn4` payload', 'tab\there', 'semi; colon: (paren) [brk] {brace} <angle>', "single ' quote",
           'star * qmark ? tilde ~', 'é ü 日本語', '!! history !$', '%s %d', '#hash', '${x:-y}', '"', '\\"', '$', '``', '\\\\',
-          'smart \u201dquotes\u201c here']
+          'smart \u201dquotes\u201c here', 'first line\nsecond line', 'cr\rhere']
 
 
 def rand_string(r):
